@@ -357,7 +357,7 @@ func run(c *core.Ctx) {
 			x.cancel()
 			continue
 		}
-		c.Fail("HARNESS.stuck", "no event to inject but tasks are not done: %s", c.S.StalledString())
+		c.Stuck("no event to inject but tasks are not done: %s", c.S.StalledString())
 		return
 	}
 }
